@@ -2157,6 +2157,9 @@ def ext_attr(it, modname, attr):
               "np.NaN": NAN, "math.nan": NAN, "sys.float_info.epsilon": Fr(1, 2 ** 52), "os.curdir": ".", "os.pardir": "..", "os.sep": "/", "os.path.sep": "/", "os.extsep": ".", "os.linesep": "\n"}
     if full in consts:
         return consts[full]
+    if modname == "re" and attr in ("IGNORECASE", "I", "MULTILINE", "M", "DOTALL", "S", "VERBOSE", "X", "ASCII", "A"):
+        import re as _re
+        return getattr(_re, attr)                       # a flag of the real `re` engine (patterns are compiled and matched by it on literal strings)
     return Module(full)
 
 
